@@ -2,12 +2,12 @@
 Decided on spec/ConfigMachine.tla with instance SchemaV (required fields with and without
 defaults, a field validator, schema validators at three depths, a feature-flagged
 sub-configuration, a list of configurations whose schema has a validator): C11_ReturnImplies,
-C11_CollectIffRaise, C11_ItemsHeld.  The conformance step registers logging validators and
+C11_CollectIffRaise, C11_ItemsHeld, C11_ItemsInserted.  The conformance step registers logging validators and
 compares the set of (configuration path, validator) invocations of every load / validate."""
 from . import cfgmachine
 
 
 def run(tier, seed):
     return cfgmachine.run_machine(
-        "C11", ["C11_ReturnImplies", "C11_CollectIffRaise", "C11_ItemsHeld"], [], tier, seed, schema="SchemaV", focus="C11"
+        "C11", ["C11_ReturnImplies", "C11_CollectIffRaise", "C11_ItemsHeld"], ["C11_ItemsInserted"], tier, seed, schema="SchemaV", focus="C11"
     )
